@@ -13,3 +13,4 @@ run R9_tie_breaking C09 C07 C06 C15 C19 C04
 run R10_deepcopy_repop_int_labels C08 C13 C04 C09 C12 C14
 echo "=== R11_rename_phase_function (expected: HARNESS-INCOMPATIBLE lines, never a VIOLATION)"
 tools/mutant.sh refactors/R11_rename_phase_function.diff C09 2>&1 | grep -E "VIOLATION|cases," | cut -c1-200
+run R12_starmap_gather C12 C14 C20 C13 C19 C09
